@@ -195,3 +195,20 @@ Print Assumptions C03_none_iff_missing_data.
 Theorem C03_radium_compound_has_values : ra_check the_nd = true.
 Proof. exact ra_witness_c. Qed.
 Print Assumptions C03_radium_compound_has_values.
+
+(* ---- the compound given as a Formula object that carries its own density: a density= or
+   natural_density= keyword of the call replaces it (so C03_model_refines_spec applies with the
+   keyword's density); the object's own density is used only when neither keyword is given *)
+Theorem C03_formula_density_rule : forall own density natural_density,
+  formula_density_args own density natural_density = spec_density_args own density natural_density.
+Proof. exact formula_density_rule. Qed.
+Print Assumptions C03_formula_density_rule.
+Theorem C03_formula_object_density_keyword_wins : forall D s own rho ws,
+  neutron_scattering_formula D s own (Some rho) None ws = neutron_scattering D s (Some rho) None ws.
+Proof. exact formula_object_density_keyword_wins. Qed.
+Theorem C03_formula_object_natural_density_keyword_wins : forall D s own density nd ws,
+  neutron_scattering_formula D s own density (Some nd) ws = neutron_scattering D s density (Some nd) ws.
+Proof. exact formula_object_natural_density_keyword_wins. Qed.
+Theorem C03_formula_object_own_density_by_default : forall D s own ws,
+  neutron_scattering_formula D s own None None ws = neutron_scattering D s own None ws.
+Proof. exact formula_object_own_density_by_default. Qed.
